@@ -164,6 +164,15 @@ pub mod c16 {
     uuid_refuse!(q_uuid_refuse_nonhex_first, "g1234567-89ab-cdef-fedc-ba9876543210");
     uuid_refuse!(q_uuid_refuse_nonhex_mid, "01234567-89ab-cdxf-fedc-ba9876543210");
     uuid_refuse!(q_uuid_refuse_nonhex_last, "01234567-89ab-cdef-fedc-ba987654321z");
+    // a sign character where a group starts (accepted by integer parsers such as from_str_radix)
+    uuid_refuse!(q_uuid_refuse_plus_group1, "+1234567-89ab-cdef-fedc-ba9876543210");
+    uuid_refuse!(q_uuid_refuse_plus_group2, "01234567-+9ab-cdef-fedc-ba9876543210");
+    uuid_refuse!(q_uuid_refuse_plus_group3, "01234567-89ab-+def-fedc-ba9876543210");
+    uuid_refuse!(q_uuid_refuse_plus_group4, "01234567-89ab-cdef-+edc-ba9876543210");
+    uuid_refuse!(q_uuid_refuse_plus_group5, "01234567-89ab-cdef-fedc-+a9876543210");
+    uuid_refuse!(t_uuid_refuse_minus_group1, "-1234567-89ab-cdef-fedc-ba9876543210");
+    uuid_refuse!(t_uuid_refuse_space_group2, "01234567- 9ab-cdef-fedc-ba9876543210");
+    uuid_refuse!(t_uuid_refuse_0x_group3, "01234567-89ab-0xef-fedc-ba9876543210");
     uuid_refuse!(t_uuid_refuse_nonhex_g2, "01234567-8-ab-cdef-fedc-ba9876543210");
     uuid_refuse!(t_uuid_refuse_nonhex_g4, "01234567-89ab-cdef-fe c-ba9876543210");
     uuid_refuse!(t_uuid_refuse_nonhex_g5, "01234567-89ab-cdef-fedc-ba98765#3210");
